@@ -72,3 +72,11 @@ Proof. intros Hn. unfold kill. destruct (set_nth_v b None h) eqn:E; [|reflexivit
 Lemma kill_same b h x : nth_error h b = Some x -> nth_error (kill b h) b = Some None.
 Proof. intros H. unfold kill. destruct (set_nth_v_some h b x None H) as (l & E). rewrite E. apply (set_nth_v_same h b None l E). Qed.
 
+
+
+(* a column slice at block cb: values, property count, names array, properties array, owned flag *)
+Definition cs_block (h : heap) (cb : nat) (values : val) (n : Z) (names props : val) (owned : Z) : Prop :=
+  nth_error h cb = Some (Some [values; VInt n; names; props; VInt owned]).
+(* a table slice at block tb: table metadata, number of columns, columns array, owned flag *)
+Definition ts_block (h : heap) (tb : nat) (meta : val) (n : Z) (cols : val) (owned : Z) : Prop :=
+  nth_error h tb = Some (Some [meta; VInt n; cols; VInt owned]).
